@@ -1326,6 +1326,41 @@ func (w *VerifWorld) Op(op string) string {
 	case "crashcheck":
 		o := w.observeAfterSettle()
 		return "crash=" + w.crashCheck(m) + " " + o
+	case "addtracker":
+		// a new in-process tracker (its own tier) added to the live torrent
+		var ln net.Listener
+		var held []net.Listener
+		for {
+			l, err := net.Listen("tcp4", "127.0.0.1:0")
+			if err != nil {
+				return "bad-op:listen"
+			}
+			// never the port the torrent itself listens on (free while the torrent is stopped)
+			if l.Addr().(*net.TCPAddr).Port == int(w.sess.config.PortBegin) {
+				held = append(held, l)
+				continue
+			}
+			ln = l
+			break
+		}
+		for _, l := range held {
+			l.Close()
+		}
+		tr := &verifTracker{idx: len(w.trackers), ln: ln, mode: "ok", release: make(chan struct{}), w: w}
+		tr.srv = &http.Server{Handler: tr}
+		go tr.srv.Serve(ln) // nolint
+		w.trackers = append(w.trackers, tr)
+		done := make(chan error, 1)
+		go func() { done <- w.tor.AddTracker(tr.url()) }()
+		select {
+		case err := <-done:
+			if err != nil {
+				return "error:addtracker " + w.observeAfterSettle()
+			}
+		case <-time.After(5 * time.Second):
+			w.dead = true
+			return "hang"
+		}
 	case "reload":
 		o := w.observeAfterSettle()
 		return "reload=" + w.reloadCheck() + " " + o
